@@ -224,6 +224,8 @@ class Profile:
     def update(self, kwargs):
         params = {}
         for n, v in kwargs.items():
+            if n in ("name", "cn_region", "data"):
+                continue  # the profile's own fields are not parameters
             if v is not None and n in self.__dict__:
                 if n == "cn_solution":
                     self.__dict__[n] = v
@@ -330,6 +332,8 @@ class Profile:
         if cn_region is None:
             cn_region = GRange(*prof["neutral"][gene.genome])
         options = dict(prof.get("options") or {}, **params)
+        for n in ("name", "cn_region", "data"):  # (not parameters: ignored as unknown)
+            options.pop(n, None)
         # (an explicitly given neutral value wins over the profile's own)
         options.setdefault("neutral_value", prof["neutral"].get("value"))
         return Profile(profile, cn_region, prof, **options)
